@@ -1,12 +1,21 @@
 use crate::engine::Tier;
 use serde_json::Value;
 
+pub mod c01;
+pub mod c02;
+pub mod c03;
+pub mod c05;
 pub mod c09;
+pub mod search_common;
 pub mod c11;
 pub mod c18;
 
 pub fn run(id: &str, tier: Tier) -> i32 {
     match id {
+        "C01" => c01::run(tier),
+        "C02" => c02::run(tier),
+        "C03" => c03::run(tier),
+        "C05" => c05::run(tier),
         "C09" => c09::run(tier),
         "C11" => c11::run(tier),
         "C18" => c18::run(tier),
@@ -19,6 +28,10 @@ pub fn run(id: &str, tier: Tier) -> i32 {
 
 pub fn replay(id: &str, case: &Value) -> i32 {
     match id {
+        "C01" => c01::replay(case),
+        "C02" => c02::replay(case),
+        "C03" => c03::replay(case),
+        "C05" => c05::replay(case),
         "C09" => c09::replay(case),
         "C11" => c11::replay(case),
         "C18" => c18::replay(case),
